@@ -13,6 +13,8 @@ it); the correspondence compares it with the compiled parser's `Debug` output.
 import KikiVerif.LR.Snd
 import KikiVerif.Proofs.Run
 import KikiVerif.Proofs.Valid
+import KikiVerif.Proofs.Universal
+import KikiVerif.Proofs.Encode
 
 namespace KikiVerif.C02
 open KikiVerif.LR
@@ -69,8 +71,28 @@ theorem C02_faithful {P : Type} {g : Grammar Nat Nat} {nN : Nat} {C : Cert} (hv 
   have hy' : t.yield = w := by simpa using hy
   exact ⟨hw, hy', fun t' hw' hy'' => C02_unique hc t' t hw' hw (by rw [hy', hy''])⟩
 
+/-- **C02 for every validated file** (generator theorem, `Proofs/Universal`): whenever the generator stages
+succeed, whatever the emitted parse loop returns with `Ok` is a derivation tree of the (coded) grammar whose
+leaves are exactly the input tokens, payloads included, in order; and since every generated automaton is
+`Complete`, that tree is the only derivation tree of the input (a grammar for which a table is emitted is
+unambiguous) -/
+theorem C02_every_grammar {P : Type} (vf : VFile.File) (enc : Encode.Enc) (m : Machine.Machine) (t : Table.Table)
+    (fuel : Nat) (he : Encode.encode vf = some enc) (hm : Machine.machineOf enc.ctx fuel = some (some m))
+    (ht : Table.machineToTable enc.ctx m = .ok t)
+    (w : List (Tok Nat P)) (fuel' : Nat) (tr : Tree Nat P) (cf : Cfg Nat P)
+    (hrun : runCfg enc.ctx.g (Driver.autoOfTable t) fuel' ⟨[(Driver.autoOfTable t).start], [], w⟩ = some (.ok tr, cf)) :
+    WF enc.ctx.g tr (.n enc.ctx.g.start) ∧ tr.yield = w ∧
+      ∀ tr2 : Tree Nat P, WF enc.ctx.g tr2 (.n enc.ctx.g.start) → tr2.yield = w → tr2 = tr := by
+  have ok := Encode.encode_ok he
+  obtain ⟨h1, h2⟩ := Universal.emitted_parser_tree ok hm ht w fuel' tr cf hrun
+  refine ⟨h1, h2, ?_⟩
+  intro tr2 hw2 hy2
+  obtain ⟨fm, hk, _⟩ := Universal.generator_checked ok hm ht
+  exact C02_unique (Valid.complete_of_checked (P := P) hk) tr2 tr hw2 h1 (by rw [hy2, h2])
+
 end KikiVerif.C02
 
+#print axioms KikiVerif.C02.C02_every_grammar
 #print axioms KikiVerif.C02.C02_tree
 #print axioms KikiVerif.C02.C02_that_tree
 #print axioms KikiVerif.C02.C02_unique
